@@ -124,7 +124,7 @@ def gen_sequence(r):
         elif m < 0.88:
             ops.append(("remaining", r.randint(1, 6)))
         elif m < 0.95:
-            ops.append(("mutate", r.randint(0, 3)))
+            ops.append(("mutate", r.randint(0, 5)))
         else:
             ops.append(("rebuild",))
     return ce, cd, slack, prior, ops
@@ -140,8 +140,9 @@ def run_impl(seq, ctx=None, direct=True):
     records: list of (op-tuple, kind, len, slack, tot_eps, tot_delta, extra)"""
     ce, cd, slack, prior, ops = seq
     recs = []
+    prior_list = list(prior) if prior else None     # stays reachable by the caller after construction
     try:
-        acc = dp.BudgetAccountant(ce, cd, slack, spent_budget=list(prior) if prior else None)
+        acc = dp.BudgetAccountant(ce, cd, slack, spent_budget=prior_list)
         exc = None
     except Exception as e:  # noqa
         acc, exc = None, e
@@ -192,6 +193,10 @@ def run_impl(seq, ctx=None, direct=True):
                     lst[0] = (0.0, 0.0)
                 elif m == 3 and lst:
                     del lst[-1]
+                elif m == 4 and prior_list is not None:
+                    prior_list.append((0.5 * (1.0 if math.isinf(ce) else ce), 0.0))   # the list the ctor was given
+                elif m == 5 and prior_list is not None:
+                    prior_list.clear()
                 for attr, val in (("epsilon", 1e9), ("delta", 1.0), ("spent_budget", [])):
                     try:
                         setattr(acc, attr, val)
@@ -318,6 +323,8 @@ FIXED_SEQS = [
                                     ("spend", 0.7, 0.0), ("check", 0.1, 0.5), ("rebuild",), ("mutate", 1)]),
     (float("inf"), 1.0, 0.0, [], [("spend", 5.0, 0.5), ("spend", 1.0, 1.0), ("spend", 1.0, 0.1), ("remaining", 2)]),
     (float("inf"), 0.5, 0.0, [], [("spend", 5.0, 0.4), ("spend", 1.0, 0.2), ("remaining", 2), ("slack", 0.1)]),
+    (1.0, 0.0, 0.0, [(0.25, 0.0), (0.25, 0.0)], [("mutate", 4), ("total",), ("spend", 0.5, 0.0), ("mutate", 5), ("total",),
+                                                  ("spend", 0.5, 0.0), ("rebuild",)]),
 ]
 
 
